@@ -614,6 +614,26 @@ def inline_helpers(module, cls, fn, depth=2, _counter=[0], keep=frozenset()):
         if pred is not None:
             # `if C: return True` / `return False`: the truth value of C
             body = [ast.copy_location(ast.Return(pred), body[0])]
+        elif len(body) > 1 or (body and isinstance(body[0], ast.If)):
+            # `if C: return A` ... `return B`: the conditional expression
+            def conv(stmts):
+                if not stmts:
+                    return None
+                st = stmts[0]
+                if isinstance(st, ast.Return) and st.value is not None:
+                    return copy.deepcopy(st.value)
+                if isinstance(st, ast.If) and len(st.body) == 1 \
+                        and isinstance(st.body[0], ast.Return) \
+                        and st.body[0].value is not None:
+                    rest = conv(st.orelse if st.orelse else stmts[1:])
+                    if rest is None:
+                        return None
+                    return ast.IfExp(copy.deepcopy(st.test),
+                                     copy.deepcopy(st.body[0].value), rest)
+                return None
+            ce = conv(body)
+            if ce is not None:
+                body = [ast.copy_location(ast.Return(ce), body[0])]
         if len(body) != 1 or not isinstance(body[0], ast.Return) \
                 or body[0].value is None:
             return None
@@ -713,6 +733,22 @@ def lower_ifexp_assign(fn):
     fn = copy.deepcopy(fn)
 
     class T(ast.NodeTransformer):
+        def visit_Expr(self, node):
+            # `f(.., a if c else b)` as a statement: the two calls
+            v = node.value
+            if isinstance(v, ast.Call):
+                for i, a in enumerate(v.args):
+                    if isinstance(a, ast.IfExp):
+                        c1, c2 = copy.deepcopy(v), copy.deepcopy(v)
+                        c1.args[i], c2.args[i] = a.body, a.orelse
+                        new = ast.If(a.test, [ast.Expr(c1)], [ast.Expr(c2)])
+                        ast.copy_location(new, node)
+                        for b in new.body + new.orelse:
+                            ast.copy_location(b, node)
+                        ast.fix_missing_locations(new)
+                        return new
+            return node
+
         def visit_Assign(self, node):
             if isinstance(node.value, ast.IfExp):
                 v = node.value
@@ -782,3 +818,40 @@ def inline_nested(module, fn, cls=None):
         return inline_helpers(module, cls, fn)
     except Exception:
         return fn
+
+
+def normalize_guards(fn):
+    """copy of ``fn`` in which guard clauses are written as nested
+    conditionals: `if C: ...; continue/return/break` followed by more
+    statements becomes `if C: ... else: <rest>`, and a bare negative guard
+    `if not C: continue` becomes `if C: <rest> else: continue`.  The set of
+    paths is unchanged; rules that look for "the branch in which C holds"
+    then see one shape."""
+    fn = copy.deepcopy(fn)
+    EXITS = (ast.Continue, ast.Return, ast.Break, ast.Raise)
+
+    def block(stmts):
+        out = []
+        for i, st in enumerate(stmts):
+            for field in ("body", "orelse", "finalbody"):
+                sub = getattr(st, field, None)
+                if isinstance(sub, list) and sub and isinstance(sub[0], ast.stmt):
+                    setattr(st, field, block(sub))
+            for h in getattr(st, "handlers", []) or []:
+                h.body = block(h.body)
+            rest = stmts[i + 1:]
+            if isinstance(st, ast.If) and not st.orelse and rest \
+                    and st.body and isinstance(st.body[-1], EXITS):
+                rest = block(rest)
+                if isinstance(st.test, ast.UnaryOp) and isinstance(
+                        st.test.op, ast.Not) and len(st.body) == 1:
+                    new = ast.If(st.test.operand, rest, st.body)
+                else:
+                    new = ast.If(st.test, st.body, rest)
+                out.append(ast.copy_location(new, st))
+                return out
+            out.append(st)
+        return out
+    fn.body = block(fn.body)
+    ast.fix_missing_locations(fn)
+    return fn
